@@ -4,6 +4,7 @@
    deviation switch off); the switches that are on in today's code are refuted below on witnesses. *)
 From PV Require Import Common.Util Gen.LedgerConsts Life.Ledger Life.LedgerCheck.
 From PV Require Import Proofs.LifeLedger Proofs.LifeLedgerSys Proofs.LifeLedgerRuns Proofs.LifeLedgerOnce.
+Local Open Scope N_scope.
 
 (* "Deactivation releases every subscription, bus listener, timer and service registration it created":
    for every ledger, every trigger (any set of watched names, in ANY iteration order - the order is the list order of
@@ -49,7 +50,7 @@ Theorem C09_dead_after_settle : forall (W : world) (g : N), ~ In g (w_active W) 
 Proof. exact dead_after_settle. Qed.
 Print Assumptions C09_dead_after_settle.
 Theorem C09_no_run_after_stop_example : Dead 1 (run_ops cfg_off ex_ops0 world0) /\
-  map r_gen (w_log (run_ops cfg_off (ex_ops0 ++ [OState 1; OEvent 1]) world0)) = [1; 3; 1; 3; 1; 3; 3]%N.
+  map r_gen (w_log (run_ops cfg_off (ex_ops0 ++ [OState 1; OEvent 1]) world0)) = [1; 3; 1; 3; 1; 3; 3].
 Proof. exact ex_dead. Qed.
 Print Assumptions C09_no_run_after_stop_example.
 
